@@ -224,3 +224,27 @@ def buildLine (line : String) : String :=
   | _ => "bad-op"
 
 end OptRs.Driver
+
+namespace OptRs.Driver
+open OptRs OptRs.Model OptRs.Gen
+
+/-- `params r0 ti tj o2` / `params kijk ti tj tk r0ij r0jk` / `params typeb tj` / `params lj ti tj`: the private parameter
+methods on arbitrary rows of the type table. -/
+def paramsLine (line : String) : String :=
+  match words line with
+  | ["r0", ti, tj, o2] =>
+    let (ti, tj) := (ti.toNat!, tj.toNat!)
+    match orderOfTwice o2.toNat!, rowsF[ti]!.z?, rowsF[tj]!.z? with
+    | some o, some zi, some zj =>
+      let ri := rowsF[ti]!; let rj := rowsF[tj]!
+      let bo := o.twice.toFloat / 2.0
+      let rbo := evalC (uffRbo (fl ri.r) (fl rj.r) (fl bo))
+      let ren := evalC (uffRen (fl ri.r) (fl rj.r) (fl (electronegativityF zi)) (fl (electronegativityF zj)))
+      let r0 := uffFnsF.r0 ti tj o
+      s!"{hexOfFloat r0} {hexOfFloat rbo} {hexOfFloat ren} {hexOfFloat (uffFnsF.kij ti tj r0)}"
+    | _, _, _ => "panic"
+  | ["kijk", ti, tj, tk, a, b] =>
+    hexOfFloat (uffFnsF.kijk ti.toNat! tj.toNat! tk.toNat! (floatOfHex a) (floatOfHex b))
+  | _ => "bad-op"
+
+end OptRs.Driver
